@@ -341,6 +341,9 @@ func nthPerm(n, k int) []int {
 	for i := range items {
 		items[i] = i
 	}
+	if k == 0 || n > 12 {
+		return items // identity (large maps are not permuted: n! does not fit)
+	}
 	out := make([]int, 0, n)
 	for i := n; i >= 1; i-- {
 		f := fact(i - 1)
